@@ -108,6 +108,10 @@ def model_params(cfg, max_conn=6, pinned=()):
             "peerOrder": order, "peers": peers, "appOrder": aorder, "apps": apps, "maxConn": max_conn, "pinned": list(pinned)}
 
 
+class StepNotEnabled(Exception):
+    pass
+
+
 class Runner:
     """Executes actions on a World and records trace steps."""
 
@@ -119,6 +123,7 @@ class Runner:
         self._mark = 0
         self.held = []          # (app name, request Message) delivered to "hold" applications
         self.vcs = {}           # c -> VC
+        self.free = False       # True: no running to quiescence after an action; thread steps are actions of their own
 
     def _collect(self):
         out = []
@@ -171,10 +176,82 @@ class Runner:
                 return p["host"]
         return ""
 
+    # -- the free grain: one environment action, or one step of one named thread, per trace step ---------------
+    def _thread_of(self, th, c):
+        ts = [t for t in self.w.s.threads if t._started and not t._finished]
+        role = lambda t: getattr(t, "role", ("", 0))
+        if th in ("rd", "wr"):
+            cand = [t for t in ts if role(t) == (th, c)]
+        elif th in ("io", "stop", "stats"):
+            cand = [t for t in ts if role(t)[0] == th]
+        elif th == "proc":
+            allp = [t for t in self.w.s.threads if role(t)[0] == "proc"]
+            cand = [allp[c - 1]] if 0 < c <= len(allp) and not allp[c - 1]._finished else []
+        elif th in ("app_recv", "app_resp"):
+            alla = [t for t in self.w.s.threads if role(t)[0] == th]
+            cand = [alla[c - 1]] if 0 < c <= len(alla) else []
+        elif th == "snd":
+            cand = [t for t in ts if t.name == "sender-%d" % c]
+        else:
+            cand = []
+        return cand[0] if cand else None
+
+    def step_thread(self, th, c):
+        """run exactly one step (until its next blocking call) of the named thread"""
+        w = self.w
+        t = self._thread_of(th, c)
+        if t is None or t not in w.s.enabled():
+            raise StepNotEnabled("thread %s/%s is %s in the implementation" % (th, c, "absent" if t is None else "not enabled"))
+        old = w.s.policy
+        w.s.policy = lambda sched, en: t
+        try:
+            w.s.step()
+        finally:
+            w.s.policy = old
+
     def do(self, act):
         w = self.w
         a = act["a"]
         self._mark = len(w.s.obs)
+        if self.free:
+            w.s.park_always = True
+            return self._do_free(act)
+        return self._do(act)
+
+    def _do_free(self, act):
+        w = self.w
+        a = act["a"]
+        real_run, real_srun = w.run, w.s.run
+        if a == "step":
+            self.step_thread(act["th"], act["c"])
+            return self._finish(act)
+        n0 = len(w.s.threads)
+        w.run = lambda: None
+        w.s.run = lambda *x, **k: 0
+        try:
+            if a == "start":
+                w.run, w.s.run = real_run, real_srun       # the start action runs at the atomic grain (as does the prefix)
+            self._act(act)
+        finally:
+            w.run, w.s.run = real_run, real_srun
+        if a == "send":                                    # the sender runs up to its wait (one action, as in the model)
+            new = [t for t in w.s.threads[n0:] if t.name.startswith("sender-")]
+            if new:
+                old = w.s.policy
+                w.s.policy = lambda sched, en: new[0]
+                try:
+                    w.s.step()
+                finally:
+                    w.s.policy = old
+        return self._finish(act)
+
+    def _do(self, act):
+        self._act(act)
+        return self._finish(act)
+
+    def _act(self, act):
+        w = self.w
+        a = act["a"]
         if a == "start":
             w.start()
         elif a == "plan":
@@ -270,6 +347,9 @@ class Runner:
             w.run()
         else:
             raise ValueError(a)
+
+    def _finish(self, act):
+        w = self.w
         for vc in w.conns:
             if vc.dir == "out" and not hasattr(vc, "dialled"):
                 vc.dialled = self._dial_peer(vc.sock.fd)
@@ -289,6 +369,8 @@ class Runner:
                     self.held.append((name, req))
         out = self._collect()
         step = {"act": {k: v for k, v in act.items() if not k.startswith("_")}, "out": out, "snap": w.snap()}
+        if self.free:
+            step["free"] = True
         self.steps.append(step)
         return step
 
@@ -607,11 +689,14 @@ def mon_batch(params, traces, tag, timeout=1800):
     return json.load(open(outp))
 
 
-def replay_acts(cfg, acts, seed=0, max_conn=9, pinned=()):
-    """Execute a given action sequence (from a TLC behaviour or a stored replay) on the real node."""
+def replay_acts(cfg, acts, seed=0, max_conn=9, pinned=(), free_from=None):
+    """Execute a given action sequence (from a TLC behaviour or a stored replay) on the real node.
+    free_from = k: the first k actions run at the atomic grain, the rest at the free grain."""
     r = Runner(cfg, seed=seed)
     try:
-        for a in acts:
+        for i, a in enumerate(acts):
+            if free_from is not None and i >= free_from:
+                r.free = True
             r.do(dict(a))
         params = model_params(r.full_cfg, max_conn=max_conn, pinned=pinned)
         return {"params": params, "steps": r.steps, "exits": [(n, e) for n, e, _ in r.w.s.exits], "cfg": cfg}
